@@ -11,7 +11,7 @@ asserted, so a listed finding can never absorb a divergence there.
 """
 from mc.engine import hbfs, par
 from mc.engine.report import Violation, HarnessError
-from mc.engine.seams import Canon
+from mc.engine.seams import Canon, new_model
 
 import ECAgent.Core as Core
 import ECAgent.Environments as Envs
@@ -72,7 +72,7 @@ def handover_case(case):
     agents' components are listed by the new model only."""
     from mc.engine.seams import reset_library
     reset_library()
-    ma, mb = Core.Model(seed=1), Core.Model(seed=2)
+    ma, mb = new_model(seed=1), new_model(seed=2)
     mk, pos = KINDS[case['kind']]
     env = mk(ma) if mk is not None else Core.Environment(ma)
     ma.set_environment(env)
@@ -110,7 +110,7 @@ def scale_case(case):
     from mc.engine.seams import reset_library
     reset_library()
     kind, n = case['kind'], case['n']
-    m = Core.Model(seed=1)
+    m = new_model(seed=1)
     mk, pos = KINDS[kind]
     if mk is not None:
         m.environment = mk(m)
@@ -269,7 +269,7 @@ class Harness:
 
     # ------------------------------------------------------------------------------------------------
     def _mk_model(self):
-        m = Core.Model(seed=1)
+        m = new_model(seed=1)
         mk, pos = KINDS[self.kind]
         if mk is not None:
             m.environment = mk(m)
@@ -548,6 +548,10 @@ class Harness:
         return repr(w.last)
 
 
+# the cheap legs run once more under the runner's ambient configurations (python -O, other logger levels)
+AMBIENT_LEGS = True
+
+
 def run(ctx):
     for case in scale_cases(ctx.tier):
         case = dict(case)
@@ -573,6 +577,8 @@ def run(ctx):
                 return
     ctx.leg('population', note='5 and 40 agents with X / Y / user subclass of PositionComponent; victims leave and '
                                're-join; model marked complete before a join or a leave')
+    if ctx.small:
+        return
     if ctx.tier == 'quick':
         small = [('a1', 'a1'), ('a2', 'a2')]
         items = [('plain', True, 4, None), ('plain', False, 30, None), ('space', False, 30, small),
